@@ -1304,6 +1304,11 @@ func (u *Universe) discoverServices() error {
 				if !ok || seen[named] {
 					continue
 				}
+				// (LookupMethod panics for a type without the method: ask the method set first)
+				ms := types.NewMethodSet(pt)
+				if ms.Lookup(named.Obj().Pkg(), "Algorithm") == nil || ms.Lookup(named.Obj().Pkg(), "Calc") == nil {
+					continue
+				}
 				algo := p.Prog.LookupMethod(pt, named.Obj().Pkg(), "Algorithm")
 				calc := p.Prog.LookupMethod(pt, named.Obj().Pkg(), "Calc")
 				if algo == nil || calc == nil {
